@@ -36,13 +36,10 @@ impl SyntaxNode {
     pub fn kind(&self) -> (r: SyntaxKind) ensures r == self.kind_s() { unimplemented!() }
     #[verifier::external_body]
     pub fn text(&self) -> (r: &EcoString) ensures r@ == self.text_s() { unimplemented!() }
+    /// (the real return type is `std::slice::Iter<'_, SyntaxNode>`; `VpIter` models it, see shims/vpiter.rs)
     #[verifier::external_body]
-    pub fn children(&self) -> (r: core::slice::Iter<'_, SyntaxNode>)
-        ensures
-            r.remaining() == self.children_s(),
-            r.obeys_prophetic_iter_laws(),
-            r.will_return_none(),
-            r.decrease() is Some,
+    pub fn children(&self) -> (r: VpIter<&SyntaxNode>)
+        ensures r.rest() == self.children_s(),
     { unimplemented!() }
     #[verifier::external_body]
     pub fn span(&self) -> (r: Span) ensures r == self.span_s() { unimplemented!() }
